@@ -286,8 +286,9 @@ def write_evidence(ctx, violations):
     ev = {"property_id": ctx.prop, "tier": ctx.tier, "seed": ctx.seed, "level": "exploration",
           "coverage": cov, "assumptions": ctx.assumptions, "wall_s": round(ctx.elapsed(), 2),
           "violations": violations}
-    os.makedirs(os.path.join(VERIF, "evidence"), exist_ok=True)
-    p = os.path.join(VERIF, "evidence", ctx.prop + ".json")
+    evdir = os.environ.get("AUV_EVIDENCE_DIR", os.path.join(VERIF, "evidence"))   # scratch runs against a patched copy must not overwrite the evidence
+    os.makedirs(evdir, exist_ok=True)
+    p = os.path.join(evdir, ctx.prop + ".json")
     if not cov["samples"]:
         cov["samples"] = [{"note": "no case completed in this run"}]
     try:
